@@ -20,9 +20,12 @@ class C20(SCheck):
 
     def gen_case(self, r, idx, tier):
         sizes = self.SIZES[tier]
-        n = sizes[idx % len(sizes)]
-        driver = ["parfile", "parblock"][(idx // len(sizes)) % 2]
-        workers = [1, 4, 16, 64][(idx // (2 * len(sizes))) % 4]
+        # the combinations most likely to exhaust descriptors come first, so that the quick tier covers them
+        combos = [(d, w) for w in (64, 16, 1, 4) for d in ("parblock", "parfile")]
+        driver, workers = combos[idx % len(combos)]
+        n = sizes[(idx // len(combos) + idx) % len(sizes)] if len(sizes) > 1 else sizes[0]
+        if idx < len(combos):
+            n = max(sizes[:2])
         ops = [gen.d_op("src")]
         per = 400
         for i in range(n):
@@ -30,7 +33,11 @@ class C20(SCheck):
             if i % per == 0:
                 ops.append(gen.d_op(d))
             ops.append({"op": "file", "p": "%s/f%05d" % (d, i), "len": 1 + (i % 7), "runs": [[0, 1 + (i % 7), i + 1]]})
-        inv = gen.mk_inv(["src"], "dst", driver=driver, workers=workers, block_size=r.choice([4096, 1 << 20]), r=True)
+        flags = {"r": True}
+        if idx % 3 == 1:
+            flags["fsync"] = True
+        gen.swarm_flags(r, flags, allow=("no_perms", "no_timestamps", "reflink", "no_progress"), p=0.2)
+        inv = gen.mk_inv(["src"], "dst", driver=driver, workers=workers, block_size=r.choice([4096, 1 << 20]), **flags)
         return {"setup": ops, "steps": [{"inv": inv}], "nofile": 1024, "max_events": 40_000_000, "timeout_s": 600, "n": n}
 
     def gen_plans(self, r, case, k):
